@@ -859,7 +859,9 @@ impl MachineState {
         )?;
 
         if stream.past_end_of_stream() {
-            return Ok(());
+            // the stream answered end_of_file again (eof_action(eof_code)):
+            // that term has no variables.
+            return self.write_read_term_options(vec![], empty_list_as_cell!());
         }
 
         loop {
